@@ -197,6 +197,10 @@ def canonical_atom(t):
     if not ch:
         return t.decl().name(), t
     if k == z3.Z3_OP_ITE:
+        cond = ch[0]
+        while z3.is_not(cond):          # ite(not c, a, b) = ite(c, b, a)
+            cond = cond.children()[0]
+            ch = [cond, ch[2], ch[1]]
         c = canonical_bool(ch[0])
         a = polynomial(ch[1]) if not z3.is_bool(ch[1]) else None
         b = polynomial(ch[2]) if not z3.is_bool(ch[2]) else None
@@ -253,16 +257,57 @@ def _depends_on_k(term) -> bool:
     return False
 
 
+def _index_free_ite_conditions(terms):
+    """boolean conditions of if-then-else subterms that do not depend on the summation index"""
+    out = []
+    seen = set()
+    stack = list(terms)
+    while stack:
+        x = stack.pop()
+        if x.get_id() in seen:
+            continue
+        seen.add(x.get_id())
+        if z3.is_app(x) and x.decl().kind() == z3.Z3_OP_ITE:
+            c = x.children()[0]
+            if not _depends_on_k(c) and not z3.is_true(c) and not z3.is_false(c):
+                if not any(c.eq(o) for o in out):
+                    out.append(c)
+        stack.extend(x.children())
+    return out
+
+
 def make_sum(ex, lo, hi, bodyfn):
     """Sum_{k=lo}^{hi-1} bodyfn(k) in Sigma-normal form (a z3 Real term)"""
     ctx = ex.ctx
     body = bodyfn(SIGMA_K)
     body = py_number(body)
     lo_t, hi_t = to_int(lo), to_int(hi)
-    count = z3.If(hi_t > lo_t, z3.ToReal(hi_t - lo_t), z3.RealVal(0))
     if not is_sym(body):
+        count = z3.If(hi_t > lo_t, z3.ToReal(hi_t - lo_t), z3.RealVal(0))
         return to_real(body) * count
-    p = polynomial(to_real(body) if not z3.is_bool(body) else z3.If(body, z3.RealVal(1), z3.RealVal(0)))
+    body = to_real(body) if not z3.is_bool(body) else z3.If(body, z3.RealVal(1), z3.RealVal(0))
+    return _sum_split(ctx, lo_t, hi_t, body, 0)
+
+
+def _sum_split(ctx, lo_t, hi_t, body, depth):
+    """case-split on index-free if-conditions:  Sum ite(c, a, b) = ite(c, Sum a, Sum b)  (c does not depend on k)"""
+    conds = _index_free_ite_conditions([body, lo_t, hi_t]) if depth < 6 else []
+    if conds:
+        c = conds[0]
+        tt, ff = z3.BoolVal(True), z3.BoolVal(False)
+        pos = _sum_split(ctx, z3.simplify(z3.substitute(lo_t, (c, tt))), z3.simplify(z3.substitute(hi_t, (c, tt))),
+                         z3.simplify(z3.substitute(body, (c, tt))), depth + 1)
+        neg = _sum_split(ctx, z3.simplify(z3.substitute(lo_t, (c, ff))), z3.simplify(z3.substitute(hi_t, (c, ff))),
+                         z3.simplify(z3.substitute(body, (c, ff))), depth + 1)
+        return z3.If(c, pos, neg)
+    return _sum_normal(ctx, lo_t, hi_t, body)
+
+
+def _sum_normal(ctx, lo_t, hi_t, body):
+    count = z3.If(hi_t > lo_t, z3.ToReal(hi_t - lo_t), z3.RealVal(0))
+    if _is_const(body):
+        return body * count
+    p = polynomial(body)
     acc = None
     for m in sorted(p.terms):
         c = p.terms[m]
